@@ -2,6 +2,9 @@
 
 use super::file::SpillFile;
 use parking_lot::Mutex;
+#[cfg(grafeo_verif)]
+use grafeo_common::verif::fake_std as std;
+
 use std::path::{Path, PathBuf};
 use std::sync::atomic::{AtomicU64, Ordering};
 
